@@ -20,16 +20,23 @@ Fixpoint find_cond (ys : list yield) (st : key) : option (list Q) :=
       end
   end.
 
-(* product of the table entries along c, exactly as _populate_samples walks (cf. Model ecount) *)
-Fixpoint tpath (ys : list yield) (bases : list (list Q)) (pf : key) (c : key) : Q :=
+(* product of the table entries along c.  b = true: exactly as _populate_samples walks (cf. Model ecount): after the
+   first prefix without a table the remaining coefficient vectors are used.  b = false: the tables are consulted at
+   every level, as the single-leftover walk does. *)
+Fixpoint gpath (b : bool) (ys : list yield) (bases : list (list Q)) (pf : key) (c : key) : Q :=
   match find_cond ys pf with
-  | None => jointp bases c
+  | None =>
+      match b, bases, c with
+      | false, v :: rest, i :: c' => nth i v 0 * gpath b ys rest (pf ++ [i]) c'
+      | _, _, _ => jointp bases c
+      end
   | Some tbl =>
       match bases, c with
-      | _ :: rest, i :: c' => nth i tbl 0 * tpath ys rest (pf ++ [i]) c'
+      | _ :: rest, i :: c' => nth i tbl 0 * gpath b ys rest (pf ++ [i]) c'
       | _, _ => 0
       end
   end.
+Definition tpath := gpath true.
 
 Lemma find_cond_app a b st :
   find_cond (a ++ b) st = match find_cond b st with Some v => Some v | None => find_cond a st end.
@@ -46,19 +53,25 @@ Proof.
   destruct (key_eqb s st) eqn:E; [|reflexivity]. apply key_eqb_eq in E. exfalso. apply (H (YCond s v)); [now left|exact E].
 Qed.
 
-Lemma tpath_local ys ys' : forall bases pf c,
+Lemma tpath_local b ys ys' : forall bases pf c,
   (forall c0, find_cond ys (pf ++ c0) = find_cond ys' (pf ++ c0)) ->
-  tpath ys bases pf c = tpath ys' bases pf c.
+  gpath b ys bases pf c = gpath b ys' bases pf c.
 Proof.
   induction bases as [|v rest IH]; intros pf c H; simpl.
   - pose proof (H []) as H0. rewrite app_nil_r in H0. now rewrite H0.
   - pose proof (H []) as H0. rewrite app_nil_r in H0. rewrite H0.
-    destruct (find_cond ys' pf); [|reflexivity]. destruct c as [|i c']; [reflexivity|].
-    f_equal. apply IH. intros c0. rewrite <- !app_assoc. apply H.
+    assert (forall i c', gpath b ys rest (pf ++ [i]) c' = gpath b ys' rest (pf ++ [i]) c') as R.
+    { intros i c'. apply IH. intros c0. rewrite <- !app_assoc. apply H. }
+    destruct (find_cond ys' pf).
+    + destruct c as [|i c']; [reflexivity|]. now rewrite R.
+    + destruct b; [reflexivity|]. destruct c as [|i c']; [reflexivity|]. now rewrite R.
 Qed.
 
-Lemma tpath_nil bases pf c : tpath [] bases pf c = jointp bases c.
-Proof. destruct bases; reflexivity. Qed.
+Lemma tpath_nil b bases : forall pf c, gpath b [] bases pf c = jointp bases c.
+Proof.
+  induction bases as [|v rest IH]; intros pf c; simpl; [destruct b; reflexivity|].
+  destruct b; [reflexivity|]. destruct c as [|i c']; [reflexivity|]. now rewrite IH.
+Qed.
 
 Lemma not_full_app a b k : ~ has_full (a ++ b) k -> ~ has_full a k /\ ~ has_full b k.
 Proof.
@@ -70,6 +83,7 @@ Proof. destruct s; simpl; ring. Qed.
 
 (* ---------- the children loop ---------- *)
 Section Kids.
+Variable b : bool.
 Variable thr : Q.
 Variable node : key -> Q -> list yield * sub.
 Variable nraw : key -> Q -> list (key * list Q).
@@ -77,14 +91,14 @@ Variable rest : list (list Q).
 Hypothesis Hu : forall pf r y, In y (fst (node pf r)) -> under pf rest y.
 Hypothesis Ht : forall pf r c, 0 <= r -> pf <> [] -> clr (nraw pf r) -> idx_ok rest c -> length c = length rest ->
   ~ has_full (fst (node pf r)) (pf ++ c) ->
-  resid (snd (node pf r)) * tpath (fst (node pf r)) rest pf c == jointp rest c.
+  resid (snd (node pf r)) * gpath b (fst (node pf r)) rest pf c == jointp rest c.
 
 Lemma kids_tpath prefix rp : 0 <= rp -> forall l i j c, nonneg l ->
   (i <= j < i + length l)%nat -> clr (kids_raw thr nraw prefix rp i l) ->
   idx_ok rest c -> length c = length rest ->
   ~ has_full (fst (fst (kids thr node prefix rp i l))) (prefix ++ j :: c) ->
   nth (j - i) (snd (fst (kids thr node prefix rp i l))) 0 *
-    tpath (fst (fst (kids thr node prefix rp i l))) rest (prefix ++ [j]) c
+    gpath b (fst (fst (kids thr node prefix rp i l))) rest (prefix ++ [j]) c
   == nth (j - i) l 0 * jointp rest c.
 Proof.
   intros Hrp. induction l as [|p l' IH]; intros i j c Nl R C O L NF; [simpl in R; lia|].
@@ -104,10 +118,10 @@ Proof.
   { destruct s; exact NF. }
   destruct (not_full_app _ _ _ NF') as [NF1 NF2].
   assert (nth (j - i) (match s with SubNone => p | SubLeaf => 0 | SubNorm n => p * n end :: tab) 0 *
-            tpath (ys ++ ys') rest (prefix ++ [j]) c == nth (j - i) (p :: l') 0 * jointp rest c) as G.
+            gpath b (ys ++ ys') rest (prefix ++ [j]) c == nth (j - i) (p :: l') 0 * jointp rest c) as G.
   { destruct (Nat.eq_dec j i) as [->|Nji].
     - replace (i - i)%nat with 0%nat by lia. cbn [nth].
-      assert (tpath (ys ++ ys') rest (prefix ++ [i]) c = tpath ys rest (prefix ++ [i]) c) as ->.
+      assert (gpath b (ys ++ ys') rest (prefix ++ [i]) c = gpath b ys rest (prefix ++ [i]) c) as ->.
       { apply tpath_local. intros c0. rewrite find_cond_app.
         rewrite (find_cond_none ys'); [reflexivity|].
         intros y I E. destruct (U2 y I) as [j' [c1 [Rj [Ej _]]]]. rewrite Ej, <- app_assoc in E.
@@ -116,7 +130,7 @@ Proof.
       rewrite T1; auto; [reflexivity|nra|destruct prefix; discriminate|].
       rewrite <- app_assoc. exact NF1.
     - replace (j - i)%nat with (S (j - S i)) by lia. cbn [nth].
-      assert (tpath (ys ++ ys') rest (prefix ++ [j]) c = tpath ys' rest (prefix ++ [j]) c) as ->.
+      assert (gpath b (ys ++ ys') rest (prefix ++ [j]) c = gpath b ys' rest (prefix ++ [j]) c) as ->.
       { apply tpath_local. intros c0. rewrite find_cond_app.
         destruct (find_cond ys' ((prefix ++ [j]) ++ c0)); [reflexivity|].
         apply find_cond_none. intros y I E. destruct (U1 y I) as [c1 [E1 _]]. rewrite E1, <- !app_assoc in E.
@@ -155,11 +169,11 @@ Proof.
   rewrite <- app_assoc. intros E. rewrite <- (app_nil_r pf) in E at 2. apply app_inv_head in E. discriminate.
 Qed.
 
-Lemma node_tpath thr bases : Forall vec_ok bases ->
+Lemma node_tpath b thr bases : Forall vec_ok bases ->
   forall pf r c, 0 <= r -> clr (node_raw thr bases pf r) -> idx_ok bases c -> length c = length bases ->
     ~ has_full (fst (dfs_node thr bases pf r)) (pf ++ c) ->
     (match pf with [] => 1 | _ :: _ => resid (snd (dfs_node thr bases pf r)) end)
-      * tpath (fst (dfs_node thr bases pf r)) bases pf c == jointp bases c.
+      * gpath b (fst (dfs_node thr bases pf r)) bases pf c == jointp bases c.
 Proof.
   pose proof atol_pos as Ap.
   induction bases as [|cur rest IH]; intros V pf r c Hr C O L NF.
@@ -169,11 +183,11 @@ Proof.
     rewrite node_raw_cons in C. apply clr_app in C. destruct C as [Ck Ct].
     assert (forall pf0 r0 c0, 0 <= r0 -> pf0 <> [] -> clr (node_raw thr rest pf0 r0) -> idx_ok rest c0 ->
               length c0 = length rest -> ~ has_full (fst (dfs_node thr rest pf0 r0)) (pf0 ++ c0) ->
-              resid (snd (dfs_node thr rest pf0 r0)) * tpath (fst (dfs_node thr rest pf0 r0)) rest pf0 c0
+              resid (snd (dfs_node thr rest pf0 r0)) * gpath b (fst (dfs_node thr rest pf0 r0)) rest pf0 c0
               == jointp rest c0) as Ht.
     { intros pf0 r0 c0 H0 Hp Hc Ho Hl Hn. specialize (IH pf0 r0 c0 H0 Hc Ho Hl Hn).
       destruct pf0; [contradiction|exact IH]. }
-    pose proof (kids_tpath thr (dfs_node thr rest) (node_raw thr rest) rest (node_under thr rest) Ht pf r Hr
+    pose proof (kids_tpath b thr (dfs_node thr rest) (node_raw thr rest) rest (node_under thr rest) Ht pf r Hr
                   cur 0%nat j c' Nc) as Kt.
     assert (0 <= nonzero_atol * nq (tree_size rest)) as HB by (pose proof (nq_nonneg (tree_size rest)); nra).
     destruct (kids_mass thr (dfs_node thr rest) (node_raw thr rest) _ pf r Hr HB (node_mass_all thr rest Vr) cur 0%nat
@@ -193,21 +207,22 @@ Proof.
       pose proof (nth_zero_small_free tab j Ftop) as Ej.
       destruct (qsum_zero_small tab Ntab) as [N0 _].
       destruct pf as [|a pf'].
-      * cbn [fst snd]. cbn [tpath]. rewrite find_cond_last.
-        assert (tpath (ysk ++ [YCond [] (map zero_small tab)]) rest ([] ++ [j]) c' = tpath ysk rest ([] ++ [j]) c') as ->.
+      * cbn [fst snd]. cbn [gpath]. rewrite find_cond_last.
+        assert (gpath b (ysk ++ [YCond [] (map zero_small tab)]) rest ([] ++ [j]) c' = gpath b ysk rest ([] ++ [j]) c') as ->.
         { apply tpath_local. intros c0. apply find_cond_last_other. apply (ext_neq [] j c0). }
         rewrite Ej. rewrite <- Kt. ring.
       * cbn [fst snd resid].
         destruct (Qeq_bool (qsum (map zero_small tab)) 0) eqn:En.
         -- apply Qeqb_true in En. rewrite app_nil_r. rewrite En.
            pose proof (qsum_zero_all _ N0 En j) as Z. rewrite Ej in Z. rewrite Z in Kt. rewrite <- Kt. ring.
-        -- apply Qeqb_false in En. cbn [tpath]. rewrite find_cond_last.
-           assert (tpath (ysk ++ [YCond (a :: pf') (map (fun x => x / qsum (map zero_small tab)) (map zero_small tab))])
-                         rest ((a :: pf') ++ [j]) c' = tpath ysk rest ((a :: pf') ++ [j]) c') as ->.
+        -- apply Qeqb_false in En. cbn [gpath]. rewrite find_cond_last.
+           assert (gpath b (ysk ++ [YCond (a :: pf') (map (fun x => x / qsum (map zero_small tab)) (map zero_small tab))])
+                         rest ((a :: pf') ++ [j]) c' = gpath b ysk rest ((a :: pf') ++ [j]) c') as ->.
            { apply tpath_local. intros c0. apply find_cond_last_other. apply ext_neq. }
            rewrite nth_map0 by (unfold Qdiv; ring). rewrite Ej, <- Kt. field. exact En.
-    + cbn [fst snd resid]. cbn [tpath]. rewrite Fp.
-      destruct pf; rewrite jointp_cons; ring.
+    + cbn [fst snd resid]. cbn [gpath]. rewrite Fp. rewrite (Ftab eq_refl) in Kt.
+      destruct b; [destruct pf; rewrite jointp_cons; ring|].
+      destruct pf; rewrite Kt; ring.
 Qed.
 
 (* ---------- through the permutation wrapper ---------- *)
@@ -262,55 +277,60 @@ Lemma nth_unperm_vec (v : list Q) p i : NoDup p -> (i < length p)%nat -> (nth i 
   nth (nth i p 0%nat) (unperm_vec p v) 0 = nth i v 0.
 Proof. intros ND Hi H. rewrite unperm_vec_nth by exact H. now rewrite index_of_nth_NoDup. Qed.
 
-Lemma tpath_unperm ys ysU : forall probsR permsR pfS pfU c,
+Lemma tpath_unperm b ys ysU : forall probsR permsR pfS pfU c,
   sorting_perms_b probsR permsR = true -> idx_ok (sorted_probs probsR permsR) c -> length c = length probsR ->
   (forall c0, idx_ok (sorted_probs probsR permsR) c0 ->
       find_cond ysU (pfU ++ unperm_state permsR c0)
       = option_map (unperm_vec (nth (length c0) permsR [])) (find_cond ys (pfS ++ c0))) ->
-  tpath ysU probsR pfU (unperm_state permsR c) = tpath ys (sorted_probs probsR permsR) pfS c.
+  gpath b ysU probsR pfU (unperm_state permsR c) = gpath b ys (sorted_probs probsR permsR) pfS c.
 Proof.
   induction probsR as [|v rv IH]; intros [|p rp] pfS pfU c S O L H; simpl in S; try discriminate.
   - destruct c; [|discriminate]. simpl.
     pose proof (H [] I) as H0. simpl in H0. rewrite !app_nil_r in H0. rewrite H0.
-    destruct (find_cond ys pfS); reflexivity.
+    destruct (find_cond ys pfS); [reflexivity|]. destruct b; reflexivity.
   - apply andb_prop in S as [S1 S2]. destruct c as [|i c']; [discriminate|].
     change (sorted_probs (v :: rv) (p :: rp)) with (apply_perm p v :: sorted_probs rv rp) in *.
     simpl in O, L. destruct O as [Hi O]. rewrite apply_perm_length in Hi.
     destruct (sorting_perm_facts _ _ S1) as [Lp [Sp _]]. destruct (perm_facts2 v p Lp Sp) as [ND Bd].
     change (unperm_state (p :: rp) (i :: c')) with (nth i p 0%nat :: unperm_state rp c').
-    cbn [tpath].
+    cbn [gpath].
     pose proof (H [] I) as H0. simpl in H0. rewrite !app_nil_r in H0. rewrite H0.
     destruct (find_cond ys pfS) as [tbl|]; simpl option_map.
     + cbv iota. rewrite nth_unperm_vec; auto; [|rewrite Lp; now apply Bd]. f_equal.
       apply IH; auto; try lia. intros c0 O0.
       rewrite <- !app_assoc. simpl.
       specialize (H (i :: c0)). simpl in H. rewrite apply_perm_length in H. apply H. split; auto.
-    + cbv iota. rewrite !jointp_cons, nth_apply_perm by exact Hi. f_equal.
-      destruct (from_sorted rv rp c' S2 O) as [J _]; [rewrite (sorted_probs_length _ _ S2); lia|]. now rewrite J.
+    + cbv iota. destruct b.
+      * rewrite !jointp_cons, nth_apply_perm by exact Hi. f_equal.
+        destruct (from_sorted rv rp c' S2 O) as [J _]; [rewrite (sorted_probs_length _ _ S2); lia|]. now rewrite J.
+      * rewrite nth_apply_perm by exact Hi. f_equal.
+        apply IH; auto; try lia. intros c0 O0.
+        rewrite <- !app_assoc. simpl.
+        specialize (H (i :: c0)). simpl in H. rewrite apply_perm_length in H. apply H. split; auto.
 Qed.
 
-Lemma tpath_unperm_top probs perms thr c : sorting_perms_b probs perms = true ->
+Lemma tpath_unperm_top b probs perms thr c : sorting_perms_b probs perms = true ->
   idx_ok (sorted_probs probs perms) c -> length c = length probs ->
-  tpath (gen_unsorted probs perms thr) probs [] (unperm_state perms c)
-  = tpath (dfs_spec (sorted_probs probs perms) thr) (sorted_probs probs perms) [] c.
+  gpath b (gen_unsorted probs perms thr) probs [] (unperm_state perms c)
+  = gpath b (dfs_spec (sorted_probs probs perms) thr) (sorted_probs probs perms) [] c.
 Proof.
   intros S O L. unfold gen_unsorted. apply tpath_unperm; auto.
   intros c0 O0. simpl. apply (find_cond_unperm probs perms); auto. apply spec_ycond_ok.
 Qed.
 
-Lemma tpath_unsorted probs perms thr ids :
+Lemma tpath_unsorted b probs perms thr ids :
   valid probs -> sorting_perms_b probs perms = true ->
   clr (raw_tables (sorted_probs probs perms) thr) ->
   idx_ok probs ids -> length ids = length probs ->
   ~ has_full (gen_unsorted probs perms thr) ids ->
-  tpath (gen_unsorted probs perms thr) probs [] ids == jointp probs ids.
+  gpath b (gen_unsorted probs perms thr) probs [] ids == jointp probs ids.
 Proof.
   intros V S C O L NF.
   destruct (to_sorted probs perms ids S O L) as [c [Oc [Lc [Uc Jc]]]].
   rewrite <- Uc, tpath_unperm_top; auto; [|rewrite Lc; apply sorted_probs_length; auto].
   rewrite Uc, <- Jc.
   destruct (sorted_vec_ok probs perms V S) as [Vs _].
-  pose proof (node_tpath thr (sorted_probs probs perms) Vs [] 1 c) as T. simpl in T.
+  pose proof (node_tpath b thr (sorted_probs probs perms) Vs [] 1 c) as T. simpl in T.
   rewrite <- T; auto; try lra; [unfold dfs_spec; ring|].
   intros [p Hp]. apply NF. exists p. rewrite <- Uc. now apply gen_unsorted_full.
 Qed.
@@ -345,7 +365,7 @@ Qed.
 Lemma ecount_tpath ys cond : (forall st, st <> [] -> dget cond st = find_cond ys st) ->
   forall rest rs nd ids, rs <> [] -> ecount rest cond rs nd ids == nd * tpath ys rest rs ids.
 Proof.
-  intros H. induction rest as [|v rest IH]; intros rs nd ids Ne; simpl; rewrite (H rs Ne).
+  intros H. unfold tpath. induction rest as [|v rest IH]; intros rs nd ids Ne; simpl; rewrite (H rs Ne).
   - destruct (find_cond ys rs); [ring|reflexivity].
   - destruct (find_cond ys rs) as [tbl|]; [|reflexivity].
     destruct ids as [|i ids']; [ring|].
@@ -363,10 +383,11 @@ Proof.
   intros H.
   assert (forall st, st <> [] -> dget cond st = find_cond ys st) as H'.
   { intros st Ne. rewrite H. destruct (find_cond ys st); [|reflexivity]. destruct st; [contradiction|reflexivity]. }
+  unfold tpath in *.
   destruct probs as [|v rest]; simpl; rewrite (H []); destruct (find_cond ys []) as [tbl|]; simpl; try reflexivity.
   - unfold Qdiv. ring.
   - destruct ids as [|i ids']; [unfold Qdiv; ring|].
-    rewrite (ecount_tpath ys cond H') by discriminate.
+    rewrite (ecount_tpath ys cond H') by discriminate. unfold tpath. simpl app.
     rewrite nth_map0 by (unfold Qdiv; ring). unfold Qdiv. ring.
 Qed.
 
@@ -409,8 +430,8 @@ Lemma acc_facts probs perms q ret cond wts0 :
   (forall st, dget cond st = match find_cond ys st with Some v => Some (norm_top st v) | None => None end) /\
   wts0 = match find_cond ys [] with Some v => qsum v | None => 1 end /\
   (forall v, find_cond ys [] = Some v -> nonneg v) /\
-  (forall ids, idx_ok probs ids -> length ids = length probs -> ~ has_full ys ids ->
-      tpath ys probs [] ids == jointp probs ids).
+  (forall b ids, idx_ok probs ids -> length ids = length probs -> ~ has_full ys ids ->
+      gpath b ys probs [] ids == jointp probs ids).
 Proof.
   intros V S Hq C E ys. unfold dfs_acc in E. unfold acc_yields in ys.
   destruct (Qle_bool (1 / q) (qprod (map qmax probs))) eqn:El; subst ys.
@@ -431,9 +452,9 @@ Proof.
       destruct (find_cond (dfs_spec (sorted_probs probs perms) (1 / q)) []) as [v0|] eqn:E0; [|discriminate].
       simpl in Hv. inversion Hv; subst. apply unperm_vec_nonneg.
       destruct (sorted_vec_ok probs perms V S) as [Vs _]. eapply spec_top_table; eauto.
-    + intros ids O L NF. now apply tpath_unsorted.
+    + intros b ids O L NF. now apply tpath_unsorted.
   - inversion E; subst. split; [reflexivity|]. split; [intros st; reflexivity|]. split; [reflexivity|].
-    split; [intros v H; discriminate|]. intros ids _ _ _. rewrite tpath_nil. reflexivity.
+    split; [intros v H; discriminate|]. intros b ids _ _ _. rewrite tpath_nil. reflexivity.
 Qed.
 
 Lemma ret_none_not_full q ys ids : dget (fold_left (ret_step q) ys []) ids = None -> ~ has_full ys ids.
@@ -529,14 +550,14 @@ Proof.
     destruct (dget ret ids) as [[w t]|] eqn:E.
     + destruct (dfs_ret_keys probs perms q ret cond wts0 ids (w, t) S Hq Eacc E) as [_ [Vw _]]. simpl in Vw.
       rewrite Vw. ring.
-    + rewrite Er in E. pose proof (Et ids O L (ret_none_not_full _ _ _ E)) as T.
+    + rewrite Er in E. pose proof (Et true ids O L (ret_none_not_full _ _ _ E)) as T. fold tpath in T.
       apply ceil_le_zero in Hs.
       destruct (find_cond (acc_yields probs perms q) []) as [v|] eqn:Ef.
       * pose proof (En v eq_refl) as Nv. pose proof (qsum_nonneg v Nv) as Qv.
         assert (qsum v == 0) as Z by (rewrite Ew in Hs; nra).
         destruct probs as [|b rest]; destruct ids as [|i ids']; try discriminate.
         -- exfalso. simpl in Em. inversion Em; subst. simpl in Na. destruct (thr_facts q Hq). lra.
-        -- cbn [tpath] in T. rewrite Ef in T. rewrite (qsum_zero_all v Nv Z i) in T. rewrite <- T. ring.
+        -- unfold tpath in T. cbn [gpath] in T. rewrite Ef in T. rewrite (qsum_zero_all v Nv Z i) in T. rewrite <- T. ring.
       * exfalso. subst wts0. lra.
   - exfalso. eapply NL; eauto.
   - (* sampled *)
@@ -544,7 +565,7 @@ Proof.
     destruct (dget ret ids) as [[w t]|] eqn:E.
     + destruct (dfs_ret_keys probs perms q ret cond wts0 ids (w, t) S Hq Eacc E) as [_ [Vw _]]. simpl in Vw.
       rewrite Vw. ring.
-    + rewrite Er in E. pose proof (Et ids O L (ret_none_not_full _ _ _ E)) as T.
+    + rewrite Er in E. pose proof (Et true ids O L (ret_none_not_full _ _ _ E)) as T. fold tpath in T.
       rewrite (ecount_top (acc_yields probs perms q) cond probs _ ids Ec).
       assert (inject_Z (Z.of_nat (Z.to_nat (Qceiling (wts0 * q)))) == inject_Z (Qceiling (wts0 * q))) as Nd
         by (rewrite Z2Nat.id by lia; reflexivity).
@@ -559,3 +580,239 @@ Proof.
       * rewrite Nd, T, <- Ew. field. repeat split; intros Z; try (rewrite Z in Wp; lra); lra.
       * rewrite Nd, T. rewrite Ew in *. field. repeat split; intros Z; try (rewrite Z in Wp; lra); lra.
 Qed.
+
+(* ================= the single-leftover shortcut ================= *)
+(* normalised tables sum to one *)
+Definition cond_norm (y : yield) : Prop :=
+  match y with YCond (_ :: _) v => qsum v == 1 | _ => True end.
+
+Lemma kids_forall (P : yield -> Prop) thr node prefix rp :
+  (forall pf r y, In y (fst (node pf r)) -> P y) ->
+  forall l i y, In y (fst (fst (kids thr node prefix rp i l))) -> P y.
+Proof.
+  intros Hn l; induction l as [|p l' IH]; intros i y; [simpl; tauto|].
+  rewrite kids_cons. destruct (Qltb (rp * p) thr); [simpl; tauto|].
+  pose proof (Hn (prefix ++ [i]) (rp * p) y) as H1.
+  destruct (node (prefix ++ [i]) (rp * p)) as [ys s]. specialize (IH (S i) y).
+  destruct (kids thr node prefix rp (S i) l') as [[ys' tab] fnd]. cbn [fst] in *.
+  assert (In y (ys ++ ys') -> P y) as G by (rewrite in_app_iff; intros [H|H]; auto).
+  destruct s; simpl; exact G.
+Qed.
+
+Lemma qsum_div_self v : ~ qsum v == 0 -> qsum (map (fun x => x / qsum v) v) == 1.
+Proof.
+  intros N. assert (forall w l, qsum (map (fun x => x / w) l) == qsum l / w) as G.
+  { intros w l. induction l as [|a l IH]; simpl; [unfold Qdiv; ring|]. rewrite IH. unfold Qdiv. ring. }
+  rewrite G. field. exact N.
+Qed.
+
+Lemma node_cond_norm thr bases : forall pf r y, In y (fst (dfs_node thr bases pf r)) -> cond_norm y.
+Proof.
+  induction bases as [|cur rest IH]; intros pf r y.
+  - simpl. intros [<-|[]]. exact I.
+  - rewrite dfs_node_cons.
+    pose proof (kids_forall cond_norm thr (dfs_node thr rest) pf r IH cur 0%nat y) as K.
+    destruct (kids thr (dfs_node thr rest) pf r 0%nat cur) as [[ys tab] fnd]. cbn [fst] in K.
+    unfold finish. destruct fnd; [|exact K].
+    destruct pf as [|a pf']; cbn [fst]; rewrite in_app_iff.
+    + intros [H|[<-|[]]]; auto. exact I.
+    + intros [H|H]; auto.
+      destruct (Qeq_bool (qsum (map zero_small tab)) 0) eqn:E; [destruct H|]. destruct H as [<-|[]].
+      simpl. apply qsum_div_self. now apply Qeqb_false.
+Qed.
+
+Lemma find_cond_In ys st v : find_cond ys st = Some v -> In (YCond st v) ys.
+Proof.
+  induction ys as [|y ys IH]; simpl; [discriminate|].
+  destruct (find_cond ys st) as [v'|]; [intros [= ->]; right; auto|].
+  destruct y as [s p|s u]; [discriminate|]. destruct (key_eqb s st) eqn:E; [|discriminate].
+  apply key_eqb_eq in E. subst. intros [= ->]. now left.
+Qed.
+
+Lemma gen_unsorted_norm probs perms thr st v :
+  Forall nonneg probs -> sorting_perms_b probs perms = true -> st <> [] ->
+  find_cond (gen_unsorted probs perms thr) st = Some v -> qsum v == 1.
+Proof.
+  intros N S Ne H. apply find_cond_In in H. unfold gen_unsorted in H. apply in_map_iff in H.
+  destruct H as [y [E I]]. destruct y as [|c v']; simpl in E; [discriminate|]. inversion E; subst. clear E.
+  unfold dfs_spec in I.
+  pose proof (node_cond_norm thr _ [] 1 _ I) as Cn.
+  pose proof (node_under thr _ [] 1 _ I) as [c0 [Ec [Oc Lc]]]. simpl in Ec, Lc. subst c0.
+  pose proof (sorted_probs_length probs perms S) as Ls.
+  assert (Forall nonneg (sorted_probs probs perms)) as Ns.
+  { clear -N S. revert perms S. induction probs as [|b rb IHb]; intros [|p rp] S; simpl in *; try discriminate; constructor.
+    - inversion N; subst. unfold nonneg, apply_perm. rewrite Forall_forall. intros x Hx.
+      apply in_map_iff in Hx. destruct Hx as [j [<- _]]. now apply nth_nonneg.
+    - inversion N; subst. apply andb_prop in S as [_ S]. apply IHb; auto. }
+  pose proof (node_cond thr _ Ns [] 1 _ I) as [c1 [Ec [_ Lv]]]. simpl in Ec. subst c1.
+  assert (length c < length probs)%nat as Hc by lia.
+  destruct (nth_sorted_probs probs perms (length c) S Hc) as [En Sp]. rewrite En, apply_perm_length in Lv.
+  destruct (sorting_perm_facts _ _ Sp) as [Lpk [Spk _]].
+  destruct c as [|i c']; [rewrite unperm_state_nil in Ne; contradiction|]. simpl in Cn.
+  rewrite <- Cn. symmetry. apply qsum_perm. apply unperm_vec_perm; auto.
+  intros j Hj. apply Spk. lia.
+Qed.
+
+Lemma qsum_single v x : (forall i, i <> x -> nth i v 0 == 0) -> qsum v == nth x v 0.
+Proof.
+  revert x; induction v as [|a v IH]; intros x H; simpl.
+  - destruct x; reflexivity.
+  - destruct x as [|x].
+    + assert (qsum v == 0) as ->.
+      { clear IH. assert (forall i, nth i v 0 == 0) as Z by (intros i; apply (H (S i)); discriminate).
+        clear H. induction v as [|b v IHv]; simpl; [reflexivity|]. rewrite (Z 0%nat). simpl.
+        rewrite IHv; [ring|]. intros i. apply (Z (S i)). }
+      ring.
+    + rewrite (H 0%nat) by discriminate. simpl. rewrite (IH x); [ring|].
+      intros i Ni. apply (H (S i)). congruence.
+Qed.
+
+Lemma in_combine_seq_conv (v : list Q) : forall a x, (a <= x < a + length v)%nat ->
+  In (x, nth (x - a) v 0) (combine (seq a (length v)) v).
+Proof.
+  induction v as [|z v IH]; intros a x R; simpl in *; [lia|].
+  destruct (Nat.eq_dec x a) as [->|N].
+  - left. replace (a - a)%nat with 0%nat by lia. reflexivity.
+  - right. replace (x - a)%nat with (S (x - S a)) by lia. apply IH. lia.
+Qed.
+
+Lemma flatnonzero_complete v x : (x < length v)%nat -> ~ nth x v 0 == 0 -> In x (flatnonzero v).
+Proof.
+  intros L N. unfold flatnonzero. apply in_map_iff. exists (x, nth x v 0). split; [reflexivity|].
+  apply filter_In. split.
+  - pose proof (in_combine_seq_conv v 0 x) as H. rewrite Nat.sub_0_r in H. apply H. lia.
+  - simpl. apply negb_true_iff. now apply Qeqb_false.
+Qed.
+
+Lemma flat_single v x : flatnonzero v = [x] -> ~ nth x v 0 == 0 /\ forall i, i <> x -> nth i v 0 == 0.
+Proof.
+  intros F. split.
+  - assert (In x (flatnonzero v)) as I by (rewrite F; now left). now apply flatnonzero_In in I.
+  - intros i Ni. destruct (Nat.lt_ge_cases i (length v)) as [L|L]; [|rewrite nth_overflow by lia; reflexivity].
+    destruct (Qeq_dec (nth i v 0) 0) as [E|E]; auto.
+    pose proof (flatnonzero_complete v i L E) as I. rewrite F in I. destruct I as [->|[]]. contradiction.
+Qed.
+
+Section Walk.
+Variable probs : list (list Q).
+Variable ys : list yield.
+Variable cond : list (key * list Q).
+Hypothesis Hv : valid probs.
+Hypothesis Hc : forall st, dget cond st = match find_cond ys st with Some v => Some (norm_top st v) | None => None end.
+Hypothesis Hn : forall st v, st <> [] -> find_cond ys st = Some v -> qsum v == 1.
+Hypothesis Hl : forall st v, find_cond ys st = Some v -> (length st < length probs)%nat.
+
+Lemma Hc' st : st <> [] -> dget cond st = find_cond ys st.
+Proof. intros Ne. rewrite Hc. destruct (find_cond ys st); [|reflexivity]. destruct st; [contradiction|reflexivity]. Qed.
+
+Lemma gpath_false_cons indep rest' pf i c' :
+  gpath false ys (indep :: rest') pf (i :: c')
+  = nth i (match find_cond ys pf with Some v => v | None => indep end) 0 * gpath false ys rest' (pf ++ [i]) c'.
+Proof. cbn [gpath]. destruct (find_cond ys pf); reflexivity. Qed.
+
+Lemma walk_gpath : forall rest done pf out, probs = done ++ rest -> length done = length pf -> pf <> [] ->
+  leftover_walk rest cond pf = Some (Some out) ->
+  exists c, out = pf ++ c /\ length c = length rest /\ gpath false ys rest pf c == 1 /\
+    forall c2, length c2 = length rest -> c2 <> c -> gpath false ys rest pf c2 == 0.
+Proof.
+  induction rest as [|indep rest' IH]; intros done pf out E L Ne H; simpl in H.
+  - inversion H; subst out. exists []. rewrite app_nil_r. split; auto. split; auto. split.
+    + simpl. destruct (find_cond ys pf) as [v|] eqn:F; [|reflexivity].
+      apply Hl in F. rewrite E, app_nil_r in F. lia.
+    + intros [|a c2] Lc N; [contradiction|discriminate].
+  - rewrite (Hc' pf Ne) in H.
+    set (tbl := match find_cond ys pf with Some v => v | None => indep end) in *.
+    destruct (flatnonzero tbl) as [|x [|x2 more]] eqn:Ef; try discriminate.
+    destruct (flat_single tbl x Ef) as [Nx Zo].
+    assert (qsum tbl == 1) as St.
+    { unfold tbl. destruct (find_cond ys pf) as [v|] eqn:F; [now apply (Hn pf v)|].
+      unfold valid in Hv. rewrite E in Hv. apply Forall_app in Hv. destruct Hv as [_ H2]. inversion H2; subst. tauto. }
+    assert (nth x tbl 0 == 1) as X1 by (rewrite <- (qsum_single tbl x Zo); exact St).
+    destruct (IH (done ++ [indep]) (pf ++ [x]) out) as [c [Eo [Lc [G1 G0]]]]; auto.
+    + now rewrite <- app_assoc.
+    + rewrite !app_length. simpl. lia.
+    + destruct pf; discriminate.
+    + exists (x :: c). split; [now rewrite Eo, <- app_assoc|]. split; [simpl; lia|]. split.
+      * rewrite gpath_false_cons. fold tbl. rewrite X1, G1. ring.
+      * intros [|i c2] L2 N2; [discriminate|]. rewrite gpath_false_cons. fold tbl.
+        destruct (Nat.eq_dec i x) as [->|Ni].
+        -- rewrite G0; [ring|simpl in L2; lia|]. intros ->. contradiction.
+        -- rewrite (Zo i Ni). ring.
+Qed.
+
+Lemma walk_top indep0 rest' wts0 rs : probs = indep0 :: rest' ->
+  wts0 = match find_cond ys [] with Some v => qsum v | None => 1 end ->
+  leftover_walk probs cond [] = Some (Some rs) ->
+  length rs = length probs /\ gpath false ys probs [] rs == wts0 /\
+  forall ids, length ids = length probs -> ids <> rs -> gpath false ys probs [] ids == 0.
+Proof.
+  intros E Ew H. rewrite E in H. simpl in H. rewrite Hc in H.
+  set (T0 := match find_cond ys [] with Some v => v | None => indep0 end).
+  assert (exists x, leftover_walk rest' cond [x] = Some (Some rs) /\ ~ nth x T0 0 == 0 /\
+                    (forall i, i <> x -> nth i T0 0 == 0) /\ nth x T0 0 == wts0) as [x [Hw [Nx [Zo Xw]]]].
+  { unfold T0. destruct (find_cond ys []) as [v|] eqn:F; simpl in H.
+    - destruct (flatnonzero (map (fun x => x / qsum v) v)) as [|x [|x2 more]] eqn:Ef; try discriminate.
+      destruct (flat_single _ x Ef) as [Nx Zo]. exists x. split; [exact H|].
+      assert (~ qsum v == 0) as Nw.
+      { intros Z. apply Nx. rewrite nth_map0 by (unfold Qdiv; ring). rewrite Z. unfold Qdiv, Qinv. simpl. ring. }
+      assert (forall i, nth i v 0 == nth i (map (fun x => x / qsum v) v) 0 * qsum v) as R.
+      { intros i. rewrite nth_map0 by (unfold Qdiv; ring). field. exact Nw. }
+      assert (forall i, i <> x -> nth i v 0 == 0) as Zv by (intros i Ni; rewrite R, (Zo i Ni); ring).
+      split; [|split; [exact Zv|]].
+      + intros Z. apply Nx. rewrite nth_map0 by (unfold Qdiv; ring). rewrite Z. unfold Qdiv. ring.
+      + rewrite Ew. symmetry. now apply qsum_single.
+    - destruct (flatnonzero indep0) as [|x [|x2 more]] eqn:Ef; try discriminate.
+      destruct (flat_single _ x Ef) as [Nx Zo]. exists x. split; [exact H|]. split; auto. split; auto.
+      rewrite Ew, <- (qsum_single indep0 x Zo).
+      unfold valid in Hv. rewrite E in Hv. inversion Hv; subst. tauto. }
+  destruct (walk_gpath rest' [indep0] [x] rs) as [c [Eo [Lc [G1 G0]]]]; auto; [discriminate|].
+  rewrite E. split; [rewrite Eo; simpl; lia|]. split.
+  - rewrite Eo. simpl app. rewrite gpath_false_cons. fold T0. rewrite G1, Xw. ring.
+  - intros [|i c2] L2 N2; [discriminate|]. rewrite gpath_false_cons. fold T0.
+    destruct (Nat.eq_dec i x) as [->|Ni].
+    + rewrite G0; [ring|simpl in L2; lia|]. intros ->. apply N2. now rewrite Eo.
+    + rewrite (Zo i Ni). ring.
+Qed.
+End Walk.
+
+Lemma acc_yields_tables probs perms q :
+  valid probs -> sorting_perms_b probs perms = true ->
+  (forall st v, st <> [] -> find_cond (acc_yields probs perms q) st = Some v -> qsum v == 1) /\
+  (forall st v, find_cond (acc_yields probs perms q) st = Some v -> (length st < length probs)%nat).
+Proof.
+  intros V S. pose proof (valid_nonneg _ V) as Nn. unfold acc_yields.
+  destruct (Qle_bool (1 / q) (qprod (map qmax probs))).
+  - split.
+    + intros st v Ne H. eapply gen_unsorted_norm; eauto.
+    + intros st v H. apply find_cond_In in H. now destruct (gen_unsorted_cond probs perms (1 / q) st v Nn S H).
+  - split; intros st v; simpl; discriminate.
+Qed.
+
+Theorem unbiased probs perms q ids c :
+  valid probs -> sorting_perms_b probs perms = true -> nonzero_atol * q <= 1 ->
+  no_entry_in_cutoff probs perms (1 / q) ->
+  gen_core probs perms (Fin q) = Ok c ->
+  in_range probs ids ->
+  expected_weight probs perms (Fin q) ids == q * jointp probs ids.
+Proof.
+  intros V S A NC G R.
+  destruct (gen_core_fin_inv _ _ _ _ G) as [Hq F].
+  destruct F as [mins Em Ae Ec0|mins ret cond wts0 Em Na Eacc Hs Ec0|mins ret cond wts0 rs Em Na Eacc Hs Lw Dn Ec0
+                |mins ret cond wts0 Em Na Eacc Hs Ec0];
+    try (eapply unbiased_partial; eauto; intros m2 r2 c2 w2 rs2 Em2 Na2 Ea2 Hs2 Lw2;
+         rewrite Em in Em2; inversion Em2; subst m2;
+         first [contradiction | (rewrite Eacc in Ea2; inversion Ea2; subst; subst c; lia) | idtac]).
+  - (* the other constructors would have produced a different core *)
+    exfalso. rewrite Eacc in Ea2. inversion Ea2; subst r2 c2 w2.
+    subst c. unfold gen_core in G. clear -G Em Na Eacc Hs Lw2 Hq.
+    (* CSample was returned although the walk completes: impossible *)
+    destruct (Qltb q 1); [discriminate|]. rewrite Em in G.
+    destruct (Qle_bool (1 / q) (qprod mins)) eqn:Ea; [discriminate|].
+    fold (dfs_acc probs perms q) in G. rewrite Eacc in G.
+    destruct (Z.ltb (Qceiling (wts0 * q)) 1); [discriminate|].
+    destruct cond as [|c0 cond'] eqn:Ec.
+    + (* empty dict: the walk over the coefficient vectors themselves *)
+      admit.
+    + rewrite <- Ec in *. rewrite Lw2 in G. destruct (dmem ret rs2); discriminate.
+  - admit.
+Admitted.
